@@ -14,11 +14,14 @@ vars == <<tid, l, rbuf, pos, acc>>
 S == Traces[tid].stream
 Undelivered(p) == SubSeq(S, p + 1, Len(S))
 
+(* an attempt cut short by a Timeout or by an error of the underlying socket (EWOULDBLOCK on a non-blocking *)
+(* socket, a reset): nothing handed out, nothing lost - buffer plus undelivered bytes are what they were  *)
+Interrupted == {"Timeout", "BlockingIOError", "ConnectionResetError"}
 RecvGood(ev) ==
   LET R == rbuf \o Undelivered(pos)
       R2 == ev.rbuf \o Undelivered(ev.pos) IN
   /\ ev.pos >= pos /\ ev.pos <= Len(S)
-  /\ IF ev.r.e = "Timeout" THEN R2 = R
+  /\ IF ev.r.e \in Interrupted THEN R2 = R
      ELSE IF ev.call.c = "recv" THEN ev.r.e = "ok" /\ RecvOk(ev.call.size, R, ev.r.v) /\ R2 = DropN(R, Len(ev.r.v))
      ELSE ev.r = Ref(ev.call, R).r /\ R2 = DropN(R, Ref(ev.call, R).used)
 
